@@ -133,46 +133,60 @@ Record st := mkst {
   steps : N;
   spin : N;                      (* loop iterations executed with the input exhausted and Error set *)
   excess : N;                    (* announced counts / lengths beyond what the input delivered *)
+  um : N;                        (* the largest single allocation unit so far (an element, a pair, a pointer target ...) *)
   corrupt : bool }.              (* a value that violates Go's own invariants was produced *)
 
 Definition set_rest (s : st) (r : bytes) (e : option ek) (d : N) : st :=
-  mkst r e (simple s) (rrefs s) (rclasses s) (alloc s) (steps s + d) (spin s) (excess s) (corrupt s).
+  mkst r e (simple s) (rrefs s) (rclasses s) (alloc s) (steps s + d) (spin s) (excess s) (um s) (corrupt s).
 Definition set_error (s : st) (k : ek) : st :=              (* if dec.Error == nil { dec.Error = k } *)
   mkst (rest s) (match err s with None => Some k | e => e end) (simple s) (rrefs s) (rclasses s)
-       (alloc s) (steps s) (spin s) (excess s) (corrupt s).
+       (alloc s) (steps s) (spin s) (excess s) (um s) (corrupt s).
 Definition force_error (s : st) (k : ek) : st :=            (* dec.Error = k *)
-  mkst (rest s) (Some k) (simple s) (rrefs s) (rclasses s) (alloc s) (steps s) (spin s) (excess s) (corrupt s).
+  mkst (rest s) (Some k) (simple s) (rrefs s) (rclasses s) (alloc s) (steps s) (spin s) (excess s) (um s) (corrupt s).
 Definition add_ref (s : st) (r : rent) : st :=              (* dec.AddReference(o) *)
   if simple s then s else
-  mkst (rest s) (err s) (simple s) (r :: rrefs s) (rclasses s) (alloc s) (steps s) (spin s) (excess s) (corrupt s).
+  mkst (rest s) (err s) (simple s) (r :: rrefs s) (rclasses s) (alloc s) (steps s) (spin s) (excess s) (um s) (corrupt s).
 Definition force_ref (s : st) (r : rent) : st :=            (* dec.refer.Add(o) without the IsSimple test: never used by /repo *)
-  mkst (rest s) (err s) (simple s) (r :: rrefs s) (rclasses s) (alloc s) (steps s) (spin s) (excess s) (corrupt s).
+  mkst (rest s) (err s) (simple s) (r :: rrefs s) (rclasses s) (alloc s) (steps s) (spin s) (excess s) (um s) (corrupt s).
 Definition add_class (s : st) (c : cinfo) : st :=
-  mkst (rest s) (err s) (simple s) (rrefs s) (c :: rclasses s) (alloc s) (steps s) (spin s) (excess s) (corrupt s).
+  mkst (rest s) (err s) (simple s) (rrefs s) (c :: rclasses s) (alloc s) (steps s) (spin s) (excess s) (um s) (corrupt s).
+(* an allocation of n bytes for one unit (pointer target, box, element slot): it is also a step *)
 Definition add_alloc (s : st) (n : N) : st :=
-  mkst (rest s) (err s) (simple s) (rrefs s) (rclasses s) (alloc s + n) (steps s) (spin s) (excess s) (corrupt s).
+  mkst (rest s) (err s) (simple s) (rrefs s) (rclasses s) (alloc s + n) (steps s + 1) (spin s) (excess s)
+       (N.max (um s) n) (corrupt s).
+(* the slot a count-driven allocation reserved for the iteration that starts now (nothing for slot 0) *)
+Definition charge (s : st) (slot : N) : st := if (slot =? 0)%N then s else add_alloc s slot.
 Definition add_excess (s : st) (n : N) : st :=
-  mkst (rest s) (err s) (simple s) (rrefs s) (rclasses s) (alloc s) (steps s) (spin s) (excess s + n) (corrupt s).
+  mkst (rest s) (err s) (simple s) (rrefs s) (rclasses s) (alloc s) (steps s) (spin s) (excess s + n) (um s) (corrupt s).
 Definition add_steps (s : st) (n : N) : st :=
-  mkst (rest s) (err s) (simple s) (rrefs s) (rclasses s) (alloc s) (steps s + n) (spin s) (excess s) (corrupt s).
+  mkst (rest s) (err s) (simple s) (rrefs s) (rclasses s) (alloc s) (steps s + n) (spin s) (excess s) (um s) (corrupt s).
 Definition set_corrupt (s : st) : st :=
-  mkst (rest s) (err s) (simple s) (rrefs s) (rclasses s) (alloc s) (steps s) (spin s) (excess s) true.
+  mkst (rest s) (err s) (simple s) (rrefs s) (rclasses s) (alloc s) (steps s) (spin s) (excess s) (um s) true.
 Definition set_simple (s : st) (b : bool) : st :=           (* dec.Simple(b): also dec.Reset() *)
-  mkst (rest s) (err s) b [] [] (alloc s) (steps s) (spin s) (excess s) (corrupt s).
+  mkst (rest s) (err s) b [] [] (alloc s) (steps s) (spin s) (excess s) (um s) (corrupt s).
 Definition reset_refs (s : st) : st :=                      (* dec.Reset() *)
-  mkst (rest s) (err s) (simple s) [] [] (alloc s) (steps s) (spin s) (excess s) (corrupt s).
+  mkst (rest s) (err s) (simple s) [] [] (alloc s) (steps s) (spin s) (excess s) (um s) (corrupt s).
 (* n iterations of a loop in a state where nothing can change any more: each costs a step and
    [per] bytes *)
 Definition spin_by (s : st) (n : N) (per : N) : st :=
   mkst (rest s) (err s) (simple s) (rrefs s) (rclasses s) (alloc s + n * per) (steps s + n) (spin s + n)
-       (excess s + n) (corrupt s).
+       (excess s + n) (N.max (um s) per) (corrupt s).
+(* n iterations not run at all (repaired loops stop on error): their slots were allocated all the same *)
+Definition skip_by (s : st) (n : N) (slot : N) : st :=
+  mkst (rest s) (err s) (simple s) (rrefs s) (rclasses s) (alloc s + n * slot) (steps s) (spin s)
+       (excess s + n) (N.max (um s) slot) (corrupt s).
+(* the input ended [ex] units short of an announced length: everything left is consumed, io.EOF is set,
+   and [a] = unit * (what was announced) bytes were reserved *)
+Definition short_by (s : st) (e : option ek) (ex : N) (a : N) (unit : N) : st :=
+  mkst [] e (simple s) (rrefs s) (rclasses s) (alloc s + a) (steps s + 1) (spin s) (excess s + ex)
+       (N.max (um s) unit) (corrupt s).
 
 Definition has_err (s : st) : bool := match err s with Some _ => true | None => false end.
 (* input exhausted and the sticky error set: NextByte returns 0 and every decoder ends in decodeError,
    which does nothing once Error is set *)
 Definition stuck (s : st) : bool := match rest s with [] => has_err s | _ => false end.
 
-Definition init (bs : bytes) (smp : bool) : st := mkst bs None smp [] [] 0 0 0 0 false.
+Definition init (bs : bytes) (smp : bool) : st := mkst bs None smp [] [] 0 0 0 0 0 false.
 
 (* ------------------------------------------------------------------ results *)
 
@@ -277,11 +291,11 @@ Definition next_n (fx : fixes) (n : Z) (s : st) : out (option bytes) :=
       let k := Z.to_nat n in ROk (Some (firstn k w)) (set_rest s (skipn k w) (err s) 1)
     else
       (* remain < n: data = make([]byte, remain, n); copy; loadMore fails: everything left, io.EOF *)
-      let s1 := set_rest s [] (merge (err s) (Some EEOF)) 1 in
+      let e := merge (err s) (Some EEOF) in
       let ex := Z.to_N (n - Z.of_nat (length w)) in
-      if fx_next fx then ROk (Some w) (add_excess s1 ex)
-      else if (max_alloc <? Z.to_N n)%N then RHaz (HAllocRange MNext) s (ROk (Some w) (add_excess s1 ex))
-      else ROk (Some w) (add_excess (add_alloc s1 (Z.to_N n)) ex)
+      if fx_next fx then ROk (Some w) (short_by s e ex 0 1)
+      else if (max_alloc <? Z.to_N n)%N then RHaz (HAllocRange MNext) s (ROk (Some w) (short_by s e ex 0 1))
+      else ROk (Some w) (short_by s e ex (Z.to_N n) 1)
   end.
 (* = s_next of Model/DecStream.v wherever that is computable (next_n_spec in Proofs/DecBytesProofs.v);
    written with [fits] so that an announced length of 10^11 is not turned into a unary number *)
@@ -322,12 +336,12 @@ Definition read_str_slow (fx : fixes) (n : Z) (w : bytes) (s : st) : out (option
     else
       (* the input ended inside the string: data = make([]byte, 0, utf16Length*3); append; loadMore fails *)
       let want := wrap_int (n1 * 3) in
-      let s1 := set_rest s [] (merge (err s) (Some EEOF)) 1 in
-      let s2 := add_excess s1 (Z.to_N n1) in
-      if fx_str fx then ROk (Some w) s2
-      else if (want <? 0)%Z then RHaz (HMakeNeg MStr) s (ROk (Some w) s2)
-      else if (max_alloc <? Z.to_N want)%N then RHaz (HAllocRange MStr) s (ROk (Some w) s2)
-      else ROk (Some w) (add_alloc s2 (Z.to_N want))
+      let e := merge (err s) (Some EEOF) in
+      let ex := Z.to_N n1 in
+      if fx_str fx then ROk (Some w) (short_by s e ex 0 3)
+      else if (want <? 0)%Z then RHaz (HMakeNeg MStr) s (ROk (Some w) (short_by s e ex 0 3))
+      else if (max_alloc <? Z.to_N want)%N then RHaz (HAllocRange MStr) s (ROk (Some w) (short_by s e ex 0 3))
+      else ROk (Some w) (short_by s e ex (N.min (Z.to_N want) (3 * ex)) 3)
   end.
 
 (* dec.readStringAsBytes(n) on an in-memory input; result: the bytes (None = nil slice) *)
@@ -424,9 +438,18 @@ Definition okind_of_num (k : nkind) : okind :=
 Definition is_src (r : rent) (sh : shape) : bool :=
   match src_shape r with Some x => shape_eqb x sh | None => false end.
 
+(* Every pointer layer behaves alike for a tag that is neither null nor (generic) reference: allocate the
+   target, decode into it with the same tag.  So **T allocates both targets and decodes the core. *)
+Fixpoint ptr_core (e : shape) : N * shape :=
+  match e with
+  | SPtr e' => let '(a, c) := ptr_core e' in ((a + size e')%N, c)
+  | _ => (0%N, e)
+  end.
+
 (* GetConverter(reflect.TypeOf(o), dest) applied to o; None: no converter (nil).
+   [ch]: the targets of all the pointer layers of dest are charged once, at the outermost layer.
    Structural in [dest] (ptrConverter recurses on dest.Elem()). *)
-Fixpoint convert (r : rent) (dest : shape) (s : st) : out (option aval) :=
+Fixpoint convert (ch : bool) (r : rent) (dest : shape) (s : st) : out (option aval) :=
   match r, dest with
   (* converters registered in init() *)
   | RStr t, SBig b => bnd (parse_soft (OBig b) t s) (fun _ s1 => ROk (Some (AOther true)) s1)
@@ -451,12 +474,12 @@ Fixpoint convert (r : rent) (dest : shape) (s : st) : out (option aval) :=
   (* reflect.Ptr *)
   | _, SPtr e =>
     if (is_src r dest && struct_kind e) || (is_src r e && negb (ptr_kind e)) then ROk (Some (AOther true)) s
-    else bnd (convert r e (add_alloc s (size e))) (fun _ s1 => ROk (Some (AOther true)) s1)
+    else bnd (convert false r e (if ch then add_alloc s (size e + fst (ptr_core e)) else s)) (fun _ s1 => ROk (Some (AOther true)) s1)
   | _, SBig b =>
     (* ptrConverter into big.X: only *big.X itself (dataCopy) or nothing at all *)
     match r with
     | RNil => RHaz HRefNilKind s (ROk (Some ANil) (set_error s KDecode))
-    | _ => ROk (Some (AOther true)) (add_alloc s 32)
+    | _ => ROk (Some (AOther true)) (if ch then add_alloc s 32 else s)
     end
   (* every other kind *)
   | _, _ =>
@@ -480,7 +503,7 @@ Definition read_reference (dest : shape) (s : st) : out aval :=
   | None => RHaz HRefIndex s1 fixed
   | Some r =>
     if match r with RNil => fx_refnil fx | _ => false end then fixed else
-    bnd (convert r dest s1) (fun v s2 =>
+    bnd (convert true r dest s1) (fun v s2 =>
     match v with
     | Some a => ROk a s2
     | None => ROk ANil (set_error s2 KCast)
@@ -507,30 +530,32 @@ Definition counted (m : msite) (per : N) (negpanics : bool) (n : Z) (s : st) : o
     | MMap | MListMap | MObjMap | MArray => ROk n s       (* makemap: overflow || mem > maxAlloc -> hint = 0; no allocation at all for the others *)
     | _ => RHaz (HAllocRange m) s (ROk 0%Z (set_error s KDecode))
     end
-  else ROk n (add_alloc s (Z.to_N n * per)).
+  else ROk n s.       (* the slots are charged one by one as the loop runs, spins or is cut short *)
 
-(* for i := 0; i < n; i++ { body }   -- k bounds the iterations that can still consume input *)
-Fixpoint loop (k : nat) (body : st -> out unit) (per : N) (n : Z) (s : st) : out unit :=
+(* for i := 0; i < n; i++ { body }   -- k bounds the iterations that can still consume input;
+   [slot]: bytes the count-driven allocation reserved per iteration (charged as the iterations go by),
+   [per]: what an iteration allocates when nothing is left to read *)
+Fixpoint loop (k : nat) (body : st -> out unit) (slot per : N) (n : Z) (s : st) : out unit :=
   if (n <=? 0)%Z then ROk tt s
-  else if stuck s then ROk tt (spin_by s (Z.to_N n) per)
-  else if fx_loop fx && has_err s then ROk tt (add_excess s (Z.to_N n))
+  else if stuck s then ROk tt (spin_by s (Z.to_N n) (slot + per))
+  else if fx_loop fx && has_err s then ROk tt (skip_by s (Z.to_N n) slot)
   else match k with
        | O => RFuel
-       | S k' => bnd (body s) (fun _ s1 => loop k' body per (n - 1) s1)
+       | S k' => bnd (body (charge s slot)) (fun _ s1 => loop k' body slot per (n - 1) s1)
        end.
 
 (* for _, name := range structInfo.names { body(name) } *)
-Fixpoint iter_names (body : bytes -> st -> out unit) (per : N) (l : list bytes) (s : st) : out unit :=
+Fixpoint iter_names (body : bytes -> st -> out unit) (slot : N) (l : list bytes) (s : st) : out unit :=
   match l with
   | [] => ROk tt s
   | nm :: r =>
-    if stuck s then ROk tt (spin_by s (N.of_nat (length l)) per)
-    else if fx_loop fx && has_err s then ROk tt (add_excess s (N.of_nat (length l)))
-    else bnd (body nm s) (fun _ s1 => iter_names body per r s1)
+    if stuck s then ROk tt (spin_by s (N.of_nat (length l)) slot)
+    else if fx_loop fx && has_err s then ROk tt (skip_by s (N.of_nat (length l)) slot)
+    else bnd (body nm (charge s slot)) (fun _ s1 => iter_names body slot r s1)
   end.
-Definition over_names (lf : nat) (body : bytes -> st -> out unit) (per : N) (c : cinfo) (s : st) : out unit :=
-  bnd (iter_names body per (cnames c) s) (fun _ s1 =>
-  loop lf (body []) per (Z.of_N (cextra c)) s1).
+Definition over_names (lf : nat) (body : bytes -> st -> out unit) (slot : N) (c : cinfo) (s : st) : out unit :=
+  bnd (iter_names body slot (cnames c) s) (fun _ s1 =>
+  loop lf (body []) slot 0 (Z.of_N (cextra c)) s1).
 
 (* what a decode into [sh] allocates when the input is exhausted (tag 0): pointer targets *)
 Fixpoint stuck_alloc (sh : shape) : N :=
@@ -549,11 +574,11 @@ Definition unit_of (r : out aval) : out unit := bnd r (fun _ s => ROk tt s).
 (* dec.ReadStruct(t) *)
 Fixpoint names_loop (k : nat) (n : Z) (acc : list bytes) (s : st) : out (list bytes * N) :=
   if (n <=? 0)%Z then ROk (rev acc, 0%N) s
-  else if stuck s then ROk (rev acc, Z.to_N n) (spin_by s (Z.to_N n) 0)
-  else if fx_loop fx && has_err s then ROk (rev acc, 0%N) (add_excess s (Z.to_N n))
+  else if stuck s then ROk (rev acc, Z.to_N n) (spin_by s (Z.to_N n) 16)
+  else if fx_loop fx && has_err s then ROk (rev acc, 0%N) (skip_by s (Z.to_N n) 16)
   else match k with
        | O => RFuel
-       | S k' => bnd (rv SString s) (fun v s1 => names_loop k' (n - 1) (str_of v :: acc) s1)
+       | S k' => bnd (rv SString (add_alloc s 16)) (fun v s1 => names_loop k' (n - 1) (str_of v :: acc) s1)
        end.
 
 Fixpoint strip_ptr (sh : shape) : shape :=
@@ -595,8 +620,8 @@ Definition read_object (s : st) : out aval :=
   get_class s (fun c s1 =>
   match ctype c with
   | None =>
-    let s2 := add_ref (add_alloc s1 (48 * (N.of_nat (length (cnames c)) + cextra c))) RMapSI in
-    bnd (over_names lf (fun _ x => unit_of (rv SIface x)) 0 c s2) (fun _ s3 => ROk (AOther false) (skip1 s3))
+    let s2 := add_ref s1 RMapSI in
+    bnd (over_names lf (fun _ x => unit_of (rv SIface x)) 48 c s2) (fun _ s3 => ROk (AOther false) (skip1 s3))
   | Some t =>
     let s2 := add_ref (add_alloc s1 (size t)) (RPtr t) in
     bnd (over_names lf (decode_field (struct_fields t)) 0 c s2) (fun _ s3 => ROk (AOther true) (skip1 s3))
@@ -632,18 +657,20 @@ Definition list_iface (s : st) : out aval :=
   bnd (counted MSlice 16 false n s1) (fun n' s2 =>
   let s3 := if (n' <? 0)%Z then set_corrupt s2 else s2 in
   let s4 := add_ref s3 (RPtr (SSlice SIface)) in
-  bnd (loop lf (fun x => unit_of (rv SIface x)) 0 n' s4) (fun _ s5 =>
+  bnd (loop lf (fun x => unit_of (rv SIface x)) 16 0 n' s4) (fun _ s5 =>
   ROk (AOther false) (skip1 s5))).
+
+Definition map_entry (ks vs : shape) : N := 16 + size ks + size vs.
 
 Fixpoint map_loop (k : nat) (ks vs : shape) (per : N) (n : Z) (acc : list (bytes * aval)) (s : st)
   : out (list (bytes * aval)) :=
   if (n <=? 0)%Z then ROk (rev acc) s
-  else if stuck s then ROk (rev acc) (spin_by s (Z.to_N n) per)
-  else if fx_loop fx && has_err s then ROk (rev acc) (add_excess s (Z.to_N n))
+  else if stuck s then ROk (rev acc) (spin_by s (Z.to_N n) (map_entry ks vs + per))
+  else if fx_loop fx && has_err s then ROk (rev acc) (skip_by s (Z.to_N n) (map_entry ks vs))
   else match k with
        | O => RFuel
        | S k' =>
-         bnd (rv ks s) (fun kv s1 =>
+         bnd (rv ks (add_alloc s (map_entry ks vs))) (fun kv s1 =>
          bnd (rv vs s1) (fun vv s2 =>
          let go := map_loop k' ks vs per (n - 1) ((str_of kv, vv) :: acc) s2 in
          match ks with
@@ -652,7 +679,6 @@ Fixpoint map_loop (k : nat) (ks vs : shape) (per : N) (n : Z) (acc : list (bytes
          end))
        end.
 
-Definition map_entry (ks vs : shape) : N := 16 + size ks + size vs.
 
 (* mapDecoder.decodeMap *)
 Definition decode_map (ks vs : shape) (s : st) : out aval :=
@@ -734,7 +760,7 @@ Definition uint8_slice (s : st) : out aval :=
   let '(n, s1) := read_int s in
   bnd (counted MUint8 1 true n s1) (fun n' s2 =>
   let s3 := add_ref s2 (RBytes None) in
-  bnd (loop lf (fun x => unit_of (rv (SNum (KUint 8)) x)) 0 n' s3) (fun _ s4 =>
+  bnd (loop lf (fun x => unit_of (rv (SNum (KUint 8)) x)) 1 0 n' s3) (fun _ s4 =>
   ROk (AOther false) (skip1 s4))).
 
 Definition dec_bytes (tag : byte) (s : st) : out aval :=
@@ -803,7 +829,7 @@ Definition dec_slice (e : shape) (tag : byte) (s : st) : out aval :=
     bnd (counted MSlice (size e) false n s1) (fun n' s2 =>
     let s3 := if (n' <? 0)%Z then set_corrupt s2 else s2 in    (* UnsafeGrow: header.Len = count *)
     let s4 := add_ref s3 (RPtr sh) in
-    bnd (loop lf (fun x => unit_of (rv e x)) (stuck_alloc e) n' s4) (fun _ s5 =>
+    bnd (loop lf (fun x => unit_of (rv e x)) (size e) (stuck_alloc e) n' s4) (fun _ s5 =>
     ROk (AOther false) (skip1 s5)))
   else default_decode sh tag s.
 
@@ -820,8 +846,8 @@ Definition dec_array_list (n : nat) (e : shape) (s : st) : out aval :=
     else RHaz HArrayNeg s2 (ROk (AOther true) (skip1 (set_error s2 KDecode)))
   else
     let m := Z.min (Z.of_nat n) c in
-    bnd (loop lf body (stuck_alloc e) m s2) (fun _ s3 =>
-    bnd (loop lf body (stuck_alloc e) (c - m) s3) (fun _ s4 =>
+    bnd (loop lf body 0 (stuck_alloc e) m s2) (fun _ s3 =>
+    bnd (loop lf body 0 (stuck_alloc e) (c - m) s3) (fun _ s4 =>
     ROk (AOther true) (skip1 s4))).
 
 Definition is_u8 (e : shape) : bool := match e with SNum (KUint 8) => true | _ => false end.
@@ -856,14 +882,14 @@ Definition dec_map (ks vs : shape) (tag : byte) (s : st) : out aval :=
       bnd (counted MListMap (map_entry ks vs) false n s1) (fun n0 s2 =>
       let n' := Z.max n0 0 in
       let s3 := add_ref s2 (RPtr sh) in
-      bnd (loop lf (fun x => unit_of (rv vs x)) (map_entry ks vs + stuck_alloc vs) n' s3) (fun _ s4 =>
+      bnd (loop lf (fun x => unit_of (rv vs x)) (map_entry ks vs) (stuck_alloc vs) n' s3) (fun _ s4 =>
       ROk (AOther false) (skip1 s4)))
     else decode_error tag s
   else if tag_is tag "o" then
     if obj_as_map_ok ks vs then
       get_class s (fun c s1 =>
       let cnt := (N.of_nat (length (cnames c)) + cextra c)%N in
-      let s2 := add_ref (add_alloc s1 (cnt * map_entry ks vs)) (RPtr sh) in
+      let s2 := add_ref s1 (RPtr sh) in
       let guard (r : out aval) := match ks with SIface => if (0 <? cnt)%N then RHaz HObjMapKey s2 r else r | _ => r end in
       guard
       match ctype c with
@@ -871,11 +897,11 @@ Definition dec_map (ks vs : shape) (tag : byte) (s : st) : out aval :=
         let f := struct_fields t in
         bnd (over_names lf (fun nm x =>
                match flookup nm f with
-               | Some fs => unit_of (rv fs (add_alloc x (size fs)))
-               | None => RHaz HObjMapField x (unit_of (rv SIface x))
+               | Some fs => unit_of (rv fs (add_alloc (add_alloc x (map_entry ks vs)) (size fs)))
+               | None => RHaz HObjMapField x (unit_of (rv SIface (add_alloc x (map_entry ks vs))))
                end) 0 c s2) (fun _ s3 => ROk (AOther false) (skip1 s3))
       | None =>
-        bnd (over_names lf (fun _ x => unit_of (rv SIface x)) 0 c s2) (fun _ s3 => ROk (AOther false) (skip1 s3))
+        bnd (over_names lf (fun _ x => unit_of (rv SIface x)) (map_entry ks vs) c s2) (fun _ s3 => ROk (AOther false) (skip1 s3))
       end)
     else decode_error tag s
   else default_decode sh tag s.
@@ -891,7 +917,7 @@ Definition dec_struct (nm : bytes) (f : fields) (tag : byte) (s : st) : out aval
     let '(n0, s1) := read_int s in
     bnd (counted MObjMap 0 false n0 s1) (fun n s1' =>
     let s2 := add_ref s1' (RPtr sh) in
-    bnd (loop lf (fun x => bnd (rv SString x) (fun v x1 => decode_field f (str_of v) x1)) 32 n s2) (fun _ s3 =>
+    bnd (loop lf (fun x => bnd (rv SString x) (fun v x1 => decode_field f (str_of v) x1)) 32 0 n s2) (fun _ s3 =>
     ROk (AOther true) (skip1 s3)))
   else if tag_is tag "e" then ROk (AOther true) s
   else default_decode sh tag s.
@@ -900,14 +926,6 @@ Definition dec_struct (nm : bytes) (f : fields) (tag : byte) (s : st) : out aval
 (* pointers decoded by the generic ptrDecoder (the others have typed decoders: decodeIntPtr ...) *)
 Definition generic_ptr (e : shape) : bool :=
   match e with SNum _ | SString | SIface | SBytes => false | _ => true end.
-
-(* Every pointer layer behaves alike for a tag that is neither null nor (generic) reference: allocate the
-   target, decode into it with the same tag.  So **T allocates both targets and decodes the core. *)
-Fixpoint ptr_core (e : shape) : N * shape :=
-  match e with
-  | SPtr e' => let '(a, c) := ptr_core e' in ((a + size e')%N, c)
-  | _ => (0%N, e)
-  end.
 
 Definition dec_ptr (e : shape) (tag : byte) (s : st) : out aval :=
   if tag_is tag "n" then ROk ANil s
@@ -942,14 +960,14 @@ Fixpoint dec_tag (fuel : nat) (sh : shape) (tag : byte) (s : st) : out aval :=
       (fun sh' s' =>
          (* a decode when nothing is left: NextByte gives 0, every decoder falls to decodeError, which
             does nothing once Error is set; only pointer destinations are allocated *)
-         if stuck s' then ROk ANil (add_steps (add_alloc s' (stuck_alloc sh')) 1)
+         if stuck s' then ROk ANil (add_alloc s' (stuck_alloc sh'))
          else let '(t, s1) := next_byte s' in dec_tag f sh' t s1)
       (dec_tag f) f sh tag (add_steps s 1)
   end.
 
 (* dec.Decode(p): NextByte, decode *)
 Definition dec_val (fuel : nat) (sh : shape) (s : st) : out aval :=
-  if stuck s then ROk ANil (add_steps (add_alloc s (stuck_alloc sh)) 1)
+  if stuck s then ROk ANil (add_alloc s (stuck_alloc sh))
   else let '(t, s1) := next_byte s in dec_tag fuel sh t s1.
 
 (* io.Unmarshal(data, &v) / Formatter{Simple: false}.Unmarshal: decoder.Decode(v); return decoder.Error *)
@@ -1019,13 +1037,13 @@ Definition param_at (m : method) (i : nat) : shape :=
 
 Fixpoint args_loop (fuel k : nat) (m : method) (i : nat) (n : Z) (s : st) : out unit :=
   if (n <=? 0)%Z then ROk tt s
-  else if stuck s then ROk tt (spin_by s (Z.to_N n) 16)
-  else if fx_loop fx && has_err s then ROk tt (add_excess s (Z.to_N n))
+  else if stuck s then ROk tt (spin_by s (Z.to_N n) 32)
+  else if fx_loop fx && has_err s then ROk tt (skip_by s (Z.to_N n) 32)
   else match k with
        | O => RFuel
        | S k' =>
          let sh := param_at m i in
-         bnd (dec_val fuel sh (add_alloc s (size sh))) (fun _ s1 => args_loop fuel k' m (S i) (n - 1) s1)
+         bnd (dec_val fuel sh (add_alloc (add_alloc s 32) (size sh))) (fun _ s1 => args_loop fuel k' m (S i) (n - 1) s1)
        end.
 
 (* serviceCodec.decodeArguments *)
